@@ -243,4 +243,74 @@ theorem meetsDemands_eq_all (ctx : Ctx) (pc : PCtx) (r : Request) (sel : List Se
     meetsDemands ctx pc r sel sa = (meetsConjuncts ctx pc r sel sa).all (·.2) := by
   simp only [meetsDemands, meetsConjuncts, List.all_cons, List.all_nil, Bool.and_true, Bool.and_assoc]
 
+
+/-! ## W3C format -/
+section W3C
+open AnonModel.VerifierW3C
+
+/-- *the credential's issuer is the issuer of the supplied credential definition* -/
+def issuersAgreeW3C (ctx : Ctx) (used : List SelectedW3C) : Bool :=
+  used.all (fun s =>
+    match ctx.credDefs.lookup s.cred.credDefId with
+    | some cd => cd.issuerId == s.cred.issuer
+    | none => false)
+
+/-- *correctly issued*: every subject entry of a used credential is a string or a number, and the
+signed value of its (normalised) name is the encoding of its string form -/
+def subjectsSignedW3C (used : List SelectedW3C) : Bool :=
+  used.all (fun s => s.cred.subject.all (fun kv =>
+    (match kv.2 with | .bool _ => false | _ => true) &&
+    s.cred.sym.attrs.lookup (commonView kv.1) == some (Encode.encode kv.2.toStr)))
+
+/-- restriction and interval of one referent hold of the credential *derived* from entry `s`:
+restrictions are evaluated with the derived credential's own subject as value map (known finding F19:
+`attr::N::value` is looked up under the subject's spelling of the name), the interval check is
+`check_credential_non_revoked_interval` on the entry's registry id and timestamp -/
+def servedCondOkW3C (ctx : Ctx) (r : Request) (s : SelectedW3C) (restrictions : Option Query)
+    (loc : Option Interval.Ivl) : Bool :=
+  match buildCredentialAttributes r s with
+  | some subj => conditionsOk ctx r (credOfW3C s default subj) restrictions loc
+  | none => false
+
+/-- *every requested attribute referent is served by a selection entry whose derived credential meets
+the referent's restriction and non-revocation interval* (there are no self-attested attributes in
+the W3C format) -/
+def attrsServedW3C (ctx : Ctx) (r : Request) (used : List SelectedW3C) : Bool :=
+  r.attrs.all (fun kv => used.any (fun s =>
+    (keys s.attrs).contains kv.1 && servedCondOkW3C ctx r s kv.2.restrictions kv.2.nonRevoked))
+
+/-- *every requested predicate referent is served likewise* -/
+def predsServedW3C (ctx : Ctx) (r : Request) (used : List SelectedW3C) : Bool :=
+  r.preds.all (fun kv => used.any (fun s =>
+    s.preds.contains kv.1 && servedCondOkW3C ctx r s kv.2.restrictions kv.2.nonRevoked))
+
+/-- the conjuncts of `meetsDemandsW3C`, named -/
+def meetsConjunctsW3C (ctx : Ctx) (pc : PCtx) (r : Request) (sel : List SelectedW3C) :
+    List (String × Bool) :=
+  let used := usedOfW3C sel
+  let usedL := used.map w3cAsSelected
+  [("schemasAgree", schemasAgree ctx pc usedL),
+   ("credDefsAgree", credDefsAgree ctx usedL),
+   ("issuersAgree", issuersAgreeW3C ctx used),
+   ("subjectsSigned", subjectsSignedW3C used),
+   ("attrsServed", attrsServedW3C ctx r used),
+   ("predsServed", predsServedW3C ctx r used),
+   ("registriesSupplied", registriesSupplied ctx usedL),
+   ("nonRevProofsOk", nonRevProofsOk ctx r usedL),
+   ("listsComplete", listsComplete ctx)]
+
+/-- the hypotheses of C04 (W3C format) -/
+def meetsDemandsW3C (ctx : Ctx) (pc : PCtx) (r : Request) (sel : List SelectedW3C) : Bool :=
+  let used := usedOfW3C sel
+  let usedL := used.map w3cAsSelected
+  schemasAgree ctx pc usedL && credDefsAgree ctx usedL && issuersAgreeW3C ctx used &&
+  subjectsSignedW3C used && attrsServedW3C ctx r used && predsServedW3C ctx r used &&
+  registriesSupplied ctx usedL && nonRevProofsOk ctx r usedL && listsComplete ctx
+
+theorem meetsDemandsW3C_eq_all (ctx : Ctx) (pc : PCtx) (r : Request) (sel : List SelectedW3C) :
+    meetsDemandsW3C ctx pc r sel = (meetsConjunctsW3C ctx pc r sel).all (·.2) := by
+  simp only [meetsDemandsW3C, meetsConjunctsW3C, List.all_cons, List.all_nil, Bool.and_true, Bool.and_assoc]
+
+end W3C
+
 end AnonModel.Prover
